@@ -35,7 +35,12 @@ CONSTANTS MaxListeners,   \* bound on [[listeners]]
           MaxFronts,      \* bound on frontends per cluster
           MaxBacks,       \* bound on backends per cluster
           MaxSize,        \* bound on #listeners + #clusters + #frontends + #backends + #knobs set
-          Deviations,     \* open known findings modelled as the code behaves (subset of {"DupFrontendAccepted"})
+          Deviations,     \* open known findings modelled as the code behaves ({"DupFrontendAccepted"}) and the
+                          \* self-test slips TLC must refute ("FrontKeyDropsMethod", "BackendKeyDropsAddress",
+                          \* "CertKeyDropsAddress": a state key that forgets one field of an object's identity)
+          Focus,          \* "all": every optional key of the universe; "identity": only the keys that take part in
+                          \* the identity of some declared object (+ the non-identity decoys), so that the size
+                          \* budget is spent on files holding two objects that differ in ONE identity field
           Emit            \* TRUE: print one REPLAY line per file (generator configs)
 
 VARIABLES glb, lsn, cls
@@ -50,9 +55,13 @@ GoodListenerProtos == {"http", "https", "tcp", "udp"}
 BadProtos == {"bogus", "absent"}     \* an unknown protocol string / the key left out
 ClusterProtos == {"http", "tcp", "bogus"}
 ClusterIds == <<"c1", "c2">>
+IdentityFocus == Focus = "identity"
+ListenerProtoChoices == GoodListenerProtos \cup (IF IdentityFocus THEN {} ELSE BadProtos)
+ClusterProtoChoices == IF IdentityFocus THEN {"http", "tcp"} ELSE ClusterProtos
 
 G0 == [buffer_size |-> "absent", activate |-> "absent", front_timeout |-> "absent", metrics_off |-> "absent"]
-GlobalKnobs == { <<"buffer_size", "small">>,    \* below 16393
+GlobalKnobs == IF IdentityFocus THEN {} ELSE
+               { <<"buffer_size", "small">>,    \* below 16393
                  <<"buffer_size", "min">>,      \* exactly 16393
                  <<"activate", "false">>,       \* activate_listeners = false
                  <<"front_timeout", "set">>,    \* front_timeout = 77
@@ -62,6 +71,7 @@ L0(a, p) == [addr |-> a, proto |-> p, expect_proxy |-> "absent", public |-> "abs
              cert |-> "absent", hsts |-> "absent", front_timeout |-> "absent"]
 LFields == {"expect_proxy", "public", "alpn", "cert", "hsts", "front_timeout"}
 LKnobs(l) ==
+  IF IdentityFocus THEN (IF l.proto = "https" THEN { <<"cert", "C2">> } ELSE {}) ELSE
   { <<"public", "set">>, <<"front_timeout", "set">> }          \* public_address = ..., front_timeout = 88
   \cup (IF l.proto \in {"http", "https", "tcp"}                 \* doc: not supported on UDP listeners
         THEN { <<"expect_proxy", "true">>, <<"expect_proxy", "false">> } ELSE {})
@@ -70,14 +80,23 @@ LKnobs(l) ==
         ELSE {})
   \cup (IF l.proto \in {"http", "https"} THEN { <<"hsts", "on">>, <<"hsts", "noenabled">> } ELSE {})
 
-F0(a, h) == [addr |-> a, host |-> h, path |-> "absent", ptype |-> "absent", cert |-> "absent", hsts |-> "absent"]
-FFields == {"path", "ptype", "cert", "hsts"}
+\* `method` restricts the routing rule to one HTTP method (FileClusterFrontendConfig::method): with address,
+\* hostname and path rule it IS part of the identity of an HTTP(S) frontend (GET /items and POST /items of one host
+\* may be served by different clusters, a method-less frontend being the fallback).  `position` and `tags` are
+\* NOT: two frontends that differ only there have one routing key.
+F0(a, h) == [addr |-> a, host |-> h, path |-> "absent", ptype |-> "absent", method |-> "absent", cert |-> "absent",
+             hsts |-> "absent", position |-> "absent", tags |-> "absent"]
+FFields == {"path", "ptype", "method", "cert", "hsts", "position", "tags"}
 Hosts == {"none", "h1", "h2"}
 BaseHost(cproto) == IF cproto = "http" THEN "h1" ELSE "none"
 FKnobs(c, f) ==
   { <<"path", "api">>, <<"cert", "C1">> }
-  \cup (IF c.proto = "http" THEN { <<"hsts", "on">> } ELSE {})   \* [hsts] on a TCP frontend: not in the documented grammar
+  \cup (IF c.proto = "http" /\ ~IdentityFocus THEN { <<"hsts", "on">> } ELSE {})   \* [hsts] on a TCP frontend: not in the documented grammar
   \cup (IF f.path # "absent" THEN { <<"ptype", v>> : v \in {"PREFIX", "REGEX", "EQUALS"} } ELSE {})
+  \* method / position / tags on a TCP frontend: not in the documented grammar either
+  \cup (IF c.proto = "http" THEN { <<"method", "GET">>, <<"method", "POST">>, <<"position", "POST">>, <<"tags", "t">> } ELSE {})
+  \* a second certificate on frontends: two certificates on one address (identity of a certificate = address + fingerprint)
+  \cup (IF IdentityFocus THEN { <<"cert", "C2">> } ELSE {})
 
 B0(a) == [addr |-> a, weight |-> "absent", backup |-> "absent", bid |-> "absent"]
 BFields == {"weight", "backup", "bid"}
@@ -174,8 +193,9 @@ AddBack(c, a) ==
 
 SetBackKnob(c, i, k, v) ==
   /\ c.backs[i][k] = "absent"
-  \* an explicit backend_id is used at most once per cluster (re-declaring one backend is out of scope)
-  /\ (k = "bid" => \A j \in 1..Len(c.backs) : c.backs[j].bid = "absent")
+  \* a backend is identified by (cluster, backend_id, address): one explicit backend_id may name two backends
+  \* with different addresses; re-declaring one (id, address) is out of scope
+  /\ (k = "bid" => \A j \in 1..Len(c.backs) : c.backs[j].bid = "absent" \/ c.backs[j].addr # c.backs[i].addr)
   /\ Replace(c, [c EXCEPT !.backs[i][k] = v])
   /\ UNCHANGED <<glb, lsn>>
   /\ Fits(glb, lsn, cls')
@@ -184,9 +204,9 @@ Init == glb = G0 /\ lsn = {} /\ cls = {}
 
 \* one named step per kind of edit (TLC reports coverage per name)
 EditGlobal       == \E kv \in GlobalKnobs : SetGlobal(kv[1], kv[2])
-NewListener      == \E a \in Addrs, p \in GoodListenerProtos \cup BadProtos : AddListener(a, p)
+NewListener      == \E a \in Addrs, p \in ListenerProtoChoices : AddListener(a, p)
 EditListener     == \E l \in lsn : \E kv \in LKnobs(l) : SetListenerKnob(l, kv[1], kv[2])
-NewCluster       == \E p \in ClusterProtos : AddCluster(p)
+NewCluster       == \E p \in ClusterProtoChoices : AddCluster(p)
 EditCluster      == \E c \in cls : \E kv \in CKnobs(c) : SetClusterKnob(c, kv[1], kv[2])
 NewFrontend      == \E c \in cls : \E a \in Addrs : AddFront(c, a)
 EditFrontend     == \E c \in cls : \E f \in c.fronts : \E kv \in FKnobs(c, f) : SetFrontKnob(c, f, kv[1], kv[2])
@@ -223,7 +243,8 @@ PathKind(f) == IF f.path = "absent" THEN "prefix"
                       [] f.ptype = "REGEX" -> "regex"
                       [] f.ptype = "EQUALS" -> "equals"
 PathValue(f) == IF f.path = "absent" THEN "" ELSE "/api"
-RouteKey(f) == <<f.addr, f.host, PathKind(f), PathValue(f)>>
+\* the identity of an HTTP(S) frontend on its listener kind: address, hostname, path rule, method
+RouteKey(f) == <<f.addr, f.host, PathKind(f), PathValue(f), f.method>>
 
 ProxyMode(send, expect) == CASE send /\ expect -> "relay" [] send /\ ~expect -> "send"
                              [] ~send /\ expect -> "expect" [] OTHER -> "none"
@@ -313,6 +334,9 @@ DeclaredClusters(F) ==
 
 HttpFrontRecord(cf) ==
   [cluster |-> cf.c.id, addr |-> cf.f.addr, host |-> cf.f.host, pkind |-> PathKind(cf.f), path |-> PathValue(cf.f),
+   method |-> cf.f.method,
+   position |-> IF IsOn(cf.f.position) THEN cf.f.position ELSE "TREE",      \* documented default: the tree
+   tags |-> cf.f.tags,
    hsts |-> IF IsOn(cf.f.hsts) THEN "on" ELSE "none"]
 
 DeclaredFronts(F, cproto, kinds) ==
@@ -467,7 +491,13 @@ Messages(F, o) ==
 EmptyState == [listeners |-> {}, clusters |-> {}, http_fronts |-> {}, https_fronts |-> {}, tcp_fronts |-> {},
                udp_fronts |-> {}, backends |-> <<>>, backids |-> {}, certs |-> {}, rej |-> 0]
 Reject(s) == [s EXCEPT !.rej = @ + 1]
-FrontKey(r) == <<r.addr, r.host, r.pkind, r.path>>
+FrontKey(r) == <<r.addr, r.host, r.pkind, r.path, r.method>>
+\* the key ConfigState files a frontend under (Display of RequestHttpFrontend); self-test slip: a key that forgets
+\* an identity field.  (The converse slip - a key that takes in a non-identity field such as `position` - is not
+\* observable by P_C20 in the corrected model, which refuses files with two frontends of one routing key at load
+\* time; the conformance leg sees it through the exact code outcomes of DupFrontendAccepted on the decoy files.)
+StateFrontKey(r) ==
+  IF "FrontKeyDropsMethod" \in Deviations THEN <<r.addr, r.host, r.pkind, r.path>> ELSE FrontKey(r)
 
 Dispatch(s, m) ==
   CASE m.t = "AddListener" ->
@@ -480,13 +510,14 @@ Dispatch(s, m) ==
     [] m.t = "AddCluster" ->     \* upsert
          [s EXCEPT !.clusters = { c \in @ : c.id # m.cluster.id } \cup {m.cluster}]
     [] m.t = "AddHttpFrontend" ->
-         IF \E r \in s.http_fronts : FrontKey(r) = FrontKey(m.front) THEN Reject(s)
+         IF \E r \in s.http_fronts : StateFrontKey(r) = StateFrontKey(m.front) THEN Reject(s)
          ELSE [s EXCEPT !.http_fronts = @ \cup {m.front}]
     [] m.t = "AddHttpsFrontend" ->
-         IF \E r \in s.https_fronts : FrontKey(r) = FrontKey(m.front) THEN Reject(s)
+         IF \E r \in s.https_fronts : StateFrontKey(r) = StateFrontKey(m.front) THEN Reject(s)
          ELSE [s EXCEPT !.https_fronts = @ \cup {m.front}]
     [] m.t = "AddCertificate" ->  \* a known fingerprint is skipped with Ok
-         [s EXCEPT !.certs = @ \cup {[addr |-> m.addr, cert |-> m.cert]}]
+         IF "CertKeyDropsAddress" \in Deviations /\ \E x \in s.certs : x.cert = m.cert THEN s
+         ELSE [s EXCEPT !.certs = @ \cup {[addr |-> m.addr, cert |-> m.cert]}]
     [] m.t = "AddTcpFrontend" ->
          IF [cluster |-> m.cluster, addr |-> m.addr] \in s.tcp_fronts THEN Reject(s)
          ELSE [s EXCEPT !.tcp_fronts = @ \cup {[cluster |-> m.cluster, addr |-> m.addr]}]
@@ -494,7 +525,8 @@ Dispatch(s, m) ==
          IF [cluster |-> m.cluster, addr |-> m.addr] \in s.udp_fronts THEN Reject(s)
          ELSE [s EXCEPT !.udp_fronts = @ \cup {[cluster |-> m.cluster, addr |-> m.addr]}]
     [] m.t = "AddBackend" ->      \* upsert on (cluster, backend_id, address); default ids embed the index
-         LET bid == <<m.back.cluster, IF m.back.idkind = "x" THEN 0 ELSE m.idx, m.back.idkind, m.back.addr>>
+         LET bid == <<m.back.cluster, IF m.back.idkind = "x" THEN 0 ELSE m.idx, m.back.idkind,
+                      IF "BackendKeyDropsAddress" \in Deviations THEN "any" ELSE m.back.addr>>
          IN IF bid \in s.backids THEN s
             ELSE [s EXCEPT !.backends = Append(@, m.back), !.backids = @ \cup {bid}]
     [] OTHER -> s                 \* ConfigureMetrics: accepted, no state
@@ -563,6 +595,51 @@ P_C20 == /\ P_C20_RejectsExactlyInvalid /\ P_C20_DeclaredIsLoaded /\ P_C20_Reloa
          /\ P_C20_NothingDuplicated /\ P_C20_Compositional
 
 ---------------------------------------------------------------------------
+(* Identity pairs (vacuity guard of the generator).  For every kind of     *)
+(* declared object and every field of its identity, P_C20_DeclaredIsLoaded *)
+(* and P_C20_NothingDuplicated only say something about that field on a    *)
+(* file that declares two objects of the kind which agree on everything    *)
+(* else and differ in THAT field (a state key that forgets the field       *)
+(* merges them: one is silently dropped).  IdentityPairs(F) names the      *)
+(* <<kind, field>> pairs a VALID file witnesses; the check requires every  *)
+(* pair of IdentityPairsRequired among the generated files.  DecoyPairs(F) *)
+(* names the non-identity fields in which two frontends with ONE routing   *)
+(* key differ (a state key that takes such a field in keeps both).         *)
+
+Differing(x, y, fields) == { k \in fields : x[k] # y[k] }
+HttpFrontFields == {"cluster", "addr", "host", "pkind", "path", "method", "position", "tags", "hsts"}
+ListenerFields == {"kind", "addr", "active", "expect_proxy", "public", "front_timeout", "alpn", "cert", "hsts"}
+
+IdentityPairs(F) ==
+  LET d == Declared(F)
+      pairsOf(kind, recs, all, idf) ==
+        { <<kind, k>> : k \in { kk \in idf : \E x, y \in recs : Differing(x, y, all) = {kk} } }
+      nb == Len(d.backends)
+  IN pairsOf("http_front", d.http_fronts, HttpFrontFields, {"addr", "host", "pkind", "path", "method"})
+     \cup pairsOf("https_front", d.https_fronts, HttpFrontFields, {"addr", "host", "pkind", "path", "method"})
+     \cup pairsOf("tcp_front", d.tcp_fronts, {"cluster", "addr"}, {"cluster", "addr"})
+     \cup pairsOf("udp_front", d.udp_fronts, {"cluster", "addr"}, {"cluster", "addr"})
+     \cup pairsOf("listener", d.listeners, ListenerFields, {"addr"})
+     \cup pairsOf("cert", d.certs, {"addr", "cert"}, {"addr", "cert"})
+     \* backends: same cluster; "addr" = one explicit backend_id on two addresses, "id" = one address twice
+     \cup (IF \E i, j \in 1..nb : /\ d.backends[i].idkind = "x"
+                                   /\ Differing(d.backends[i], d.backends[j], {"cluster", "addr", "weight", "backup", "idkind"}) = {"addr"}
+           THEN {<<"backend", "addr">>} ELSE {})
+     \cup (IF \E i, j \in 1..nb : i # j /\ d.backends[i].cluster = d.backends[j].cluster /\ d.backends[i].addr = d.backends[j].addr
+                                   /\ d.backends[i].weight = d.backends[j].weight /\ d.backends[i].backup = d.backends[j].backup
+           THEN {<<"backend", "id">>} ELSE {})
+
+IdentityPairsRequired ==
+  { <<k, f>> : k \in {"http_front", "https_front"}, f \in {"addr", "host", "pkind", "path", "method"} }
+  \cup { <<"tcp_front", "cluster">>, <<"tcp_front", "addr">>, <<"udp_front", "cluster">>, <<"udp_front", "addr">>,
+         <<"listener", "addr">>, <<"cert", "addr">>, <<"cert", "cert">>, <<"backend", "addr">>, <<"backend", "id">> }
+
+DecoyPairs(F) ==
+  { <<"front", k>> : k \in { kk \in {"position", "tags"} :
+       \E x, y \in FrontsOf(F) : /\ x.c.proto = "http" /\ y.c.proto = "http" /\ RouteKey(x.f) = RouteKey(y.f)
+                                  /\ x.f[kk] # y.f[kk] /\ \A o \in {"position", "tags"} \ {kk} : x.f[o] = y.f[o] } }
+
+---------------------------------------------------------------------------
 (* Generator: one line per file with the DOCUMENT reading, plus (for the   *)
 (* open deviations) the outcomes the CODE reading allows.                  *)
 
@@ -586,6 +663,8 @@ EmitFile ==
                        size |-> FileSize(F.g, F.ls, F.cs),
                        valid |-> v = {},
                        violations |-> v,
+                       pairs |-> IF v = {} THEN IdentityPairs(F) ELSE {},
+                       decoys |-> DecoyPairs(F),
                        declared |-> IF v = {} THEN Declared(F) ELSE [none |-> TRUE],
                        nmsg |-> IF v = {} THEN Run(F, o1).nmsg ELSE 0,
                        reload_rejected |-> IF v = {} THEN Run(F, o1).reload_expected ELSE 0,
